@@ -76,6 +76,20 @@ Theorem C06_iv_sequence_cbcs :
 Proof. exact samples_roundtrip_cbcs. Qed.
 Print Assumptions C06_iv_sequence_cbcs.
 
+(* third-party content: for ANY fragment on which DecryptFragment's surgery succeeds, the trun data offset (and
+   the mdat position, when the mdat follows the moof) moves by exactly the number of bytes the moof shrinks, so it
+   designates the same mdat bytes; the surgery touches no sample field (the model has none to touch: trun sample
+   tables, tfdt and tfhd are opaque boxes that are kept) *)
+Theorem C06_decrypt_preserves_offsets : forall f g,
+  decrypt_frag_struct f = Ok g ->
+  f_moof_start g = f_moof_start f /\
+  moof_size (f_children g) + (f_data_offset f - f_data_offset g) = moof_size (f_children f) /\
+  f_data_offset g <= f_data_offset f /\
+  (f_moof_start f < f_mdat_start f ->
+   f_mdat_start g + (f_data_offset f - f_data_offset g) = f_mdat_start f \/ f_mdat_start f < f_data_offset f - f_data_offset g).
+Proof. exact decrypt_struct_general. Qed.
+Print Assumptions C06_decrypt_preserves_offsets.
+
 (* ---------------------------------------------------------------- examples *)
 (* the defect of the pinned tree (fixed by the `fix:` commit): traf{tfhd, tfxd-uuid} lost its uuid box and no
    byte was counted *)
